@@ -64,6 +64,11 @@ def get_chunk_dtype_transformer(input_dtype, output_dtype, warn=True):
         and not np.can_cast(input_dtype, output_dtype, casting="safe")
     )
 
+    # The maximum of a 64-bit integer type is not representable in a floating
+    # point work type: it rounds up to 2**64, which overflows the final cast.
+    saturate_max = (clip_values and np.issubdtype(work_dtype, np.floating)
+                    and float(work_dtype.type(clip_max)) > clip_max)
+
     logger.debug("dtype converter from %s to %s: "
                  "work_dtype=%s, round_to_nearest=%s, clip_values=%s",
                  input_dtype, output_dtype,
@@ -87,6 +92,12 @@ def get_chunk_dtype_transformer(input_dtype, output_dtype, warn=True):
                 np.rint(chunk, out=chunk)
             if clip_values:
                 np.clip(chunk, clip_min, clip_max, out=chunk)
+                if saturate_max:
+                    too_large = chunk >= work_dtype.type(clip_max)
+                    chunk[too_large] = 0
+                    ret = chunk.astype(output_dtype, casting="unsafe")
+                    ret[too_large] = output_max
+                    return ret
         return chunk.astype(output_dtype, casting="unsafe")
 
     return chunk_transformer
